@@ -198,6 +198,13 @@ def _track_item(item, n):
     return size if size > 0 else None
 
 
+def _np_shape(r, op):
+    """a quarter of the to-shape requests spell the shape with numpy integers (array or list of scalars, signed / unsigned)"""
+    if r.random() < 0.25:
+        op['np_shape'] = [r.choice(['array', 'list']), r.choice(['uint8', 'uint16', 'int64', 'int32'])]
+    return op
+
+
 def gen_op(ctx, r, shape, cshape, coord):
     """One operation for a volume of the given spatial/channel shape; returns (op, new spatial shape, new channel shape)."""
     kinds = ['getitem'] * 5 + ['flip'] * 2 + ['permute'] * 2 + ['swap', 'pad', 'pad', 'pad', 'pad_to', 'crop_to',
@@ -288,8 +295,9 @@ def gen_op(ctx, r, shape, cshape, coord):
                 w = r.choice([[[1, 1], [1, 1]], [[1, 1], [1], [1, 1]], [[0, -1], [0, 0], [0, 0]], [[-2, 0], [1, 0], [0, 0]],
                               [[1, 2, 3], [1, 2, 3], [1, 2, 3]]])
         op = {'op': 'pad', 'width': w, **extra}
-        if form.startswith('nested') and not bad and r.random() < 0.25:
+        if not bad and r.random() < 0.25:
             op['np_width'] = r.choice(['uint8', 'uint16', 'int64', 'int32'])
+            op['np_tuple'] = r.random() < 0.5
         if bad:
             return op, n, cshape
         return op, [n[d] + full[d][0] + full[d][1] for d in range(3)], cshape
@@ -300,15 +308,15 @@ def gen_op(ctx, r, shape, cshape, coord):
             tgt[d] = n[d] - r.randint(1, 2)
             if r.random() < 0.3:
                 tgt = tgt[:2]
-            return {'op': 'pad_to', 'shape': tgt, **extra}, n, cshape
-        return {'op': 'pad_to', 'shape': tgt, **extra}, tgt, cshape
+            return _np_shape(r, {'op': 'pad_to', 'shape': tgt, **extra}), n, cshape
+        return _np_shape(r, {'op': 'pad_to', 'shape': tgt, **extra}), tgt, cshape
     if kind == 'crop_to':
         tgt = [r.randint(1, n[d]) if r.random() < 0.7 else n[d] for d in range(3)]
         if bad:
             d = r.randrange(3)
             tgt[d] = r.choice([n[d] + 1, 0, -1, n[d] + 3])
-            return {'op': 'crop_to', 'shape': tgt}, n, cshape
-        return {'op': 'crop_to', 'shape': tgt}, tgt, cshape
+            return _np_shape(r, {'op': 'crop_to', 'shape': tgt}), n, cshape
+        return _np_shape(r, {'op': 'crop_to', 'shape': tgt}), tgt, cshape
     if kind == 'pad_or_crop_to':
         tgt = [max(1, n[d] + r.choice([-3, -2, -1, 0, 0, 1, 2, 3])) for d in range(3)]
         if bad:
@@ -316,7 +324,7 @@ def gen_op(ctx, r, shape, cshape, coord):
             if r.random() < 0.3:
                 tgt = tgt + [1]
             return {'op': 'pad_or_crop_to', 'shape': tgt, **extra}, n, cshape
-        return {'op': 'pad_or_crop_to', 'shape': tgt, **extra}, tgt, cshape
+        return _np_shape(r, {'op': 'pad_or_crop_to', 'shape': tgt, **extra}), tgt, cshape
     if kind == 'to_orientation':
         o = r.choice(ORIENTATIONS)
         form = r.choice(['str', 'str', 'list', 'enum'])
@@ -453,16 +461,29 @@ def apply_op(obj, op, is_volume, state=None):
         return obj.swap_spatial_axes(op['a'], op['b'])
     if k == 'pad':
         w = op['width']
-        if op.get('np_width') and isinstance(w, list) and w and isinstance(w[0], list):
-            dt = getattr(np, op['np_width'])      # nested forms with numpy integers (signed or unsigned)
-            w = [[dt(x) for x in p] for p in w]
+        if op.get('np_width'):
+            dt = getattr(np, op['np_width'])      # every width form spelled with numpy integers (signed or unsigned)
+            if isinstance(w, int):
+                w = dt(w)
+            elif w and isinstance(w[0], list):
+                w = [[dt(x) for x in p] for p in w]
+            else:
+                w = [dt(x) for x in w]
+                if op.get('np_tuple'):
+                    w = tuple(w)
         return obj.pad(w, **pad_kw)
+    if k in ('pad_to', 'crop_to', 'pad_or_crop_to'):
+        shp = op['shape']
+        if op.get('np_shape') and all(isinstance(x, int) and x >= 0 for x in shp):
+            kind, dtname = op['np_shape']        # the requested shape spelled as numpy array / list of numpy scalars
+            dt = getattr(np, dtname)
+            shp = np.array(shp, dtype=dt) if kind == 'array' else [dt(x) for x in shp]
     if k == 'pad_to':
-        return obj.pad_to_spatial_shape(op['shape'], **pad_kw)
+        return obj.pad_to_spatial_shape(shp, **pad_kw)
     if k == 'crop_to':
-        return obj.crop_to_spatial_shape(op['shape'])
+        return obj.crop_to_spatial_shape(shp)
     if k == 'pad_or_crop_to':
-        return obj.pad_or_crop_to_spatial_shape(op['shape'], **pad_kw)
+        return obj.pad_or_crop_to_spatial_shape(shp, **pad_kw)
     if k == 'to_orientation':
         return obj.to_patient_orientation(_orient_arg(op))
     if k == 'ensure_handedness':
@@ -744,6 +765,19 @@ def oracle_channel_op(ctx, case, vin, vout, op, site):
 FRESH_OPS = {'copy', 'pad', 'pad_to', 'pad_or_crop_to'}
 
 
+def _valid_width(w):
+    """one of the four documented forms with non-negative integers"""
+    if isinstance(w, int):
+        return w >= 0
+    if not isinstance(w, list) or not w:
+        return False
+    if all(isinstance(x, int) for x in w):
+        return len(w) == 2 and min(w) >= 0
+    if all(isinstance(p, list) for p in w) and len(w) == 3:
+        return len({len(p) for p in w}) == 1 and len(w[0]) in (1, 2) and all(isinstance(x, int) and x >= 0 for p in w for x in p)
+    return False
+
+
 def independence_probe(ctx, case, vin, vout, op, before, site):
     shares = bool(np.shares_memory(vout.array, vin.array))
     ctx.hist('result_shares_buffer_with_input', f"{op['op']}:{'shared' if shares else 'own'}")
@@ -875,15 +909,23 @@ def run_history(ctx, spec, length, r, reqs, pending):
         before = _snapshot(v)
         mop = _model_op(op, v)
         try:
-            v2 = apply_op(v, op, True)
-            err = None
-        except Exception as e:  # noqa: BLE001
-            v2, err = None, e
-        try:
             g2 = apply_op(g, op, False)
             gerr = None
         except Exception as e:  # noqa: BLE001
             g2, gerr = None, e
+        # the (cheap) geometry twin goes first: a result far larger than anything requested is reported at once and the
+        # volume is not taken there (a wrapped unsigned size asks numpy for gigabytes)
+        if gerr is None and op['op'] in PAD_OPS and int(np.prod([int(x) for x in g2.spatial_shape])) > 200000:
+            ctx.fail(case, {'what': 'padding operation produced an absurdly large geometry', 'got': [int(x) for x in g2.spatial_shape],
+                            'input_shape': list(v.spatial_shape), 'requested': op.get('shape', op.get('width'))}, site=site + '/geometry')
+            model_ops.append(mop)
+            impl_obs.append({'err': 'value', 'case': case})
+            continue
+        try:
+            v2 = apply_op(v, op, True)
+            err = None
+        except Exception as e:  # noqa: BLE001
+            v2, err = None, e
         # ---- original unchanged (also when the call was refused)
         if _snapshot(v) != before:
             ctx.fail(case, {'what': 'the input volume was modified by the call'}, site=site)
@@ -917,6 +959,11 @@ def run_history(ctx, spec, length, r, reqs, pending):
                 elif list(v2.spatial_shape) != want_shape:
                     ctx.fail(case, {'what': 'result of indexing does not have the shape of the selection',
                                     'got': list(v2.spatial_shape), 'want': want_shape}, site='getitem')
+        # ---- the four documented pad_width forms with non-negative integers (Python or numpy) are accepted
+        if op['op'] == 'pad' and _valid_width(op['width']) and (err is not None or gerr is not None):
+            e = err if err is not None else gerr
+            ctx.fail(case, {'what': f'a valid pad_width was refused: {type(e).__name__}: {e}'[:300],
+                            'spelling': op.get('np_width', 'int')}, site='pad')
         # ---- geometry twin is refused exactly when the volume is (spatial ops)
         spatial = op['op'] not in ('with_array', 'get_channel', 'permute_channels', 'permute_channels_by_id')
         if spatial and (err is None) != (gerr is None):
